@@ -194,7 +194,7 @@ class World:
         self.dropped = 0
         self.purged = 0
         self.since = {}  # fairness ghost: flow f -> {flow g: served while f backlogged and unserved}
-        self.sig = ()  # observable result signature of the path
+        self.sig = ()  # outcome signature of the path: rejections, pop ranks, drops
         self.nontrivial = False
 
     # -- public-stats accessors (None when the policy has no such statistic) --
@@ -246,7 +246,6 @@ class World:
                 self.accepted += 1
                 if kind == "fair" and sum(1 for h in self.held if h.a == a) == 1:
                     self.since[a] = {}
-                self.sig += ("A",)
             else:
                 self.rejected += 1
                 self.nontrivial = True
@@ -264,10 +263,8 @@ class World:
             if got is not None and not any(got is h for h in self.held):
                 v.append((f"{C}/conserve/peek-returns-item-not-held",
                           f"peek() returned {got!r} which is not held (held={self.held})"))
-            self.sig += ("k",)
         elif op[0] == "tick":
             self.clk.t += SEC
-            self.sig += ("t",)
         elif op[0] == "purge":
             n = pol.purge_expired()
             exp = [h for h in self.held if h.deadline_ns < self.clk.t]
@@ -495,7 +492,7 @@ def replay(config, ops):
         for i, op in enumerate(ops):
             op = tuple(op)
             viol = w.apply(op)
-            print(f"  step {i}: {op} -> result {w.sig[-1]!r}; {w.describe()}")
+            print(f"  step {i}: {op} -> {w.describe()}")
             for fp, d in viol:
                 print(f"    !! {fp}: {d}")
             out += viol
